@@ -331,7 +331,7 @@ Definition SI (n : Z) (m : sim) : Prop := SB n m /\ Full 0 m /\ Wt m /\ Wa m.
 Lemma n_panics_rev_cons e o : n_panics (rev (e :: o)) = n_panics (rev o) + (if (fst (fst e) =? E_PANIC)%Z then 1 else 0).
 Proof. cbn [rev]. rewrite n_panics_app. f_equal. unfold n_panics. cbn [filter]. destruct (fst (fst e) =? E_PANIC)%Z; reflexivity. Qed.
 
-(* a fresh task (id = s_next) is admitted at once *)
+(* a fresh task (id = s_next) is let in at once *)
 Lemma SB_bump_in n m k : SB n m -> s_queue m = [] -> s_next m < MAXTASKS -> tokens (s_lim m) < limit (s_lim m) ->
   SB n (inmax (after_in (bump m k) (s_next m))).
 Proof.
@@ -393,7 +393,7 @@ Proof.
   - lia.
 Qed.
 
-(* the head of the queue is admitted *)
+(* the head of the queue is let in *)
 Lemma SB_queue_in n m h q : SB n m -> s_queue m = h :: q -> tokens (s_lim m) < limit (s_lim m) ->
   SB n (inmax (after_in (upd m (s_lim m) q (s_waiter m) (s_out m)) h)).
 Proof.
